@@ -9,6 +9,7 @@ CONSTANTS
   SubDom <- SubQ
   OtherVals <- OtherQ
   Junk = {9}
+  AliasMode = "repaired"
 CONSTRAINT OtherBound
 VIEW absview
 INVARIANTS RepInv NoAccessOutside
